@@ -745,6 +745,63 @@ func ruleReaderWidthTables(c *core.Ctx, rule string) {
 			if strings.HasSuffix(c.Fset.Position(f.Pos()).Filename, "_test.go") {
 				continue
 			}
+			// the same table written as a switch over the letter:
+			// case 'i', 'I', 'f': return constReader(4)
+			ast.Inspect(f, func(nd ast.Node) bool {
+				cc, ok := nd.(*ast.CaseClause)
+				if !ok {
+					return true
+				}
+				var sigs []string
+				for _, e := range cc.List {
+					tv, ok := p.TypesInfo.Types[e]
+					if !ok || tv.Value == nil {
+						continue
+					}
+					switch tv.Value.Kind() {
+					case constant.String:
+						sigs = append(sigs, constant.StringVal(tv.Value))
+					case constant.Int:
+						if k, exact := constant.Int64Val(tv.Value); exact && k > 32 && k < 127 {
+							sigs = append(sigs, string(rune(k)))
+						}
+					}
+				}
+				if len(sigs) == 0 {
+					return true
+				}
+				for _, st := range cc.Body {
+					ast.Inspect(st, func(nd2 ast.Node) bool {
+						if _, nested := nd2.(*ast.CaseClause); nested {
+							return false
+						}
+						call, ok := nd2.(*ast.CallExpr)
+						if !ok || len(call.Args) != 1 {
+							return true
+						}
+						id, ok := call.Fun.(*ast.Ident)
+						if !ok || id.Name != "constReader" {
+							return true
+						}
+						tva, ok := p.TypesInfo.Types[call.Args[0]]
+						if !ok || tva.Value == nil {
+							return true
+						}
+						k, exact := constant.Int64Val(constant.ToInt(tva.Value))
+						for _, sig := range sigs {
+							want, known := width[sig]
+							if !exact || !known {
+								continue
+							}
+							n++
+							c.Check(k == want, rule, fmt.Sprintf("reader-width@%s/case-%s", rel, sig), call.Pos(), fmt.Sprintf("%q is read as %d bytes, as its constructor does", sig, want),
+								fmt.Sprintf("signature %q is paired with a %d-byte reader in this switch but its type constructor reads %d bytes: a value of that type met on this path is cut short (or over-read) and every byte after it is attributed to the wrong member", sig, k, want))
+						}
+						return true
+					})
+				}
+				return true
+			})
 			ast.Inspect(f, func(nd ast.Node) bool {
 				kv, ok := nd.(*ast.KeyValueExpr)
 				if !ok {
